@@ -10,4 +10,5 @@ CONSTANTS
   StratSet <- Names
   AllCands = FALSE
   AllDraws = FALSE
+  BestIsMember = FALSE
 INVARIANT NeverFullRun
